@@ -43,15 +43,12 @@ func runC02(e *core.Env) error {
 		}
 		var ig1 config.Integration
 		switch h % 5 {
-		case 1, 2:
-			ig1 = traceIG("ig1", "t1") // blocks + trace_block (h%4==2 is also the caching variant every 20 histories: lcm)
+		case 1:
+			ig1 = traceIG("ig1", "t1") // blocks + trace_block (h=6: with the caching client)
 		case 3:
 			ig1 = transferIG("ig1", "t1", nil, nil) // logs only: no parent hashes in the fetched blocks
 		default:
-			ig1 = transferIG("ig1", "t1", []string{"block_time"}, nil)
-		}
-		if h%4 == 2 && rr.Bool() {
-			ig1 = traceIG("ig1", "t1")
+			ig1 = transferIG("ig1", "t1", []string{"block_time"}, nil) // (h=2: with the caching client)
 		}
 		if h%3 == 1 {
 			// the table spells out the bookkeeping columns itself (the block list does not name them): they
